@@ -187,6 +187,12 @@ impl<'a> AnnotationCsv<'a> {
                             let res: &TextResource = store.get(*res).expect("resource must exist");
                             out += res.id().expect("resource must have an id");
                         }
+                        Selector::RangedAnnotationSelector { .. } => {
+                            //keep the columns aligned: one (empty) position per expanded subselector
+                            for _ in 1..subselector.iter(store, false).count() {
+                                out.push(';');
+                            }
+                        }
                         _ => {}
                     }
                 }
@@ -214,6 +220,12 @@ impl<'a> AnnotationCsv<'a> {
                             let dataset: &AnnotationDataSet =
                                 store.get(*dataset).expect("dataset must exist");
                             out += dataset.id().expect("dataset must have an id");
+                        }
+                        Selector::RangedTextSelector { .. } | Selector::RangedAnnotationSelector { .. } => {
+                            //keep the columns aligned: one (empty) position per expanded subselector
+                            for _ in 1..subselector.iter(store, false).count() {
+                                out.push(';');
+                            }
                         }
                         _ => {}
                     }
@@ -249,6 +261,12 @@ impl<'a> AnnotationCsv<'a> {
                             let key: &DataKey =
                                 dataset.get(*key).expect("key must exist");
                             out += key.id().expect("key must have an id");
+                        }
+                        Selector::RangedTextSelector { .. } | Selector::RangedAnnotationSelector { .. } => {
+                            //keep the columns aligned: one (empty) position per expanded subselector
+                            for _ in 1..subselector.iter(store, false).count() {
+                                out.push(';');
+                            }
                         }
                         _ => {}
                     }
@@ -289,6 +307,12 @@ impl<'a> AnnotationCsv<'a> {
                                 out += id;
                             } else {
                                 out += data.temp_id().expect("temp_id must succeed").as_str();
+                            }
+                        }
+                        Selector::RangedTextSelector { .. } | Selector::RangedAnnotationSelector { .. } => {
+                            //keep the columns aligned: one (empty) position per expanded subselector
+                            for _ in 1..subselector.iter(store, false).count() {
+                                out.push(';');
                             }
                         }
                         _ => {}
@@ -335,6 +359,12 @@ impl<'a> AnnotationCsv<'a> {
                                 out += id;
                             } else {
                                 out += &ann.temp_id().expect("temp_id must succeed");
+                            }
+                        }
+                        Selector::RangedTextSelector { .. } => {
+                            //keep the columns aligned: one (empty) position per expanded subselector
+                            for _ in 1..subselector.iter(store, false).count() {
+                                out.push(';');
                             }
                         }
                         _ => {}
